@@ -967,8 +967,19 @@ impl<Octs> Nsec3Salt<Octs> {
             }
         }
 
-        scanner
-            .convert_token(Converter::default())
+        // The length check lives in a function that only knows the scanner:
+        // there, the octets type is known to be `AsRef<[u8]>`.
+        fn scan_octets<S: Scanner>(
+            scanner: &mut S,
+        ) -> Result<S::Octets, S::Error> {
+            let res = scanner.convert_token(Converter::default())?;
+            if res.as_ref().len() > Nsec3Salt::MAX_LEN {
+                return Err(S::Error::custom("NSEC3 salt too long"));
+            }
+            Ok(res)
+        }
+
+        scan_octets(scanner)
             .map(|res| unsafe { Self::from_octets_unchecked(res) })
     }
 
